@@ -148,6 +148,53 @@ fn run_case(case: &str, c: &Value, rng: &mut Rng) -> Vec<Value> {
         }
         evs.push(json!({"ev":"Levels","case":case,"res":lres,"dims":dims}));
     }
+    // palettised encodings with an alpha plane: the alpha of EVERY level against the alpha of the source scaled
+    // down the documented way (halve with resize_exact and the caller's filter, level by level)
+    if let (Some(p), true) = (&parsed, enc == "raw1" && alpha > 0) {
+        let n = level_sizes(p).len();
+        let mut exp = DynamicImage::ImageRgba8(src.clone());
+        let mut lv: Vec<Value> = Vec::new();
+        for i in 0..n {
+            if i > 0 {
+                let (w2, h2) = ((exp.width() >> 1).max(1), (exp.height() >> 1).max(1));
+                exp = exp.resize_exact(w2, h2, FilterType::Triangle);
+            }
+            let e = exp.to_rgba8();
+            let (r, d) = class(guarded(|| blp_to_image(p, i)));
+            let Some(d) = d else {
+                lv.push(json!({"lvl":i,"res":r,"n":0,"dmin":0,"dmax":0,"dmean":0,"emin":0,"emax":0,"emean":0,"epos":0,"pairs":[],"full":false}));
+                continue;
+            };
+            let d = d.into_rgba8();
+            if d.dimensions() != e.dimensions() {
+                lv.push(json!({"lvl":i,"res":"dims","n":0,"dmin":0,"dmax":0,"dmean":0,"emin":0,"emax":0,"emean":0,"epos":0,"pairs":[],"full":false}));
+                continue;
+            }
+            let npx = (e.width() * e.height()) as u64;
+            let (mut dmin, mut dmax, mut dsum, mut emin, mut emax, mut esum, mut epos) = (255u64, 0u64, 0u64, 255u64, 0u64, 0u64, 0u64);
+            let mut seen = std::collections::BTreeSet::new();
+            for (a, b) in e.pixels().zip(d.pixels()) {
+                let (ea, da) = (a[3] as u64, b[3] as u64);
+                dmin = dmin.min(da);
+                dmax = dmax.max(da);
+                dsum += da;
+                emin = emin.min(ea);
+                emax = emax.max(ea);
+                esum += ea;
+                if ea > 0 {
+                    epos += 1;
+                }
+                if seen.len() < 300 {
+                    seen.insert((a[3], b[3]));
+                }
+            }
+            let full = seen.len() < 300;
+            let pj: Vec<Value> = seen.iter().map(|(a, b)| json!([a, b])).collect();
+            lv.push(json!({"lvl":i,"res":"ok","n":npx,"dmin":dmin,"dmax":dmax,"dmean":dsum / npx,"emin":emin,"emax":emax,"emean":esum / npx,
+                "epos":epos,"pairs":pj,"full":full}));
+        }
+        evs.push(json!({"ev":"AlphaLevels","case":case,"levels":lv}));
+    }
     if let (Some(p), true) = (&parsed, enc == "raw1" || enc == "raw3") {
         let (dres, dec) = class(guarded(|| blp_to_image(p, 0)));
         let mut pal_bad = 0usize;
